@@ -82,18 +82,23 @@ impl Invoke {
 impl idlc_codegen::functions::ParameterVisitor for Invoke {
     fn visit_input_primitive_buffer(&mut self, ident: &idlc_mir::Ident, ty: idlc_mir::Primitive) {
         let bi_idx = self.bi_idx();
+        let sz = ty.size();
         let ty = change_primitive(ty);
         let capitalized_ty = capitalize_first_letter(ty);
-        let to_buffer = if !capitalized_ty.is_empty() {
-            format!("as{capitalized_ty}Buffer().")
-        } else {
-            "".to_string()
-        };
 
-        self.pre.push(format!(
-            r#"{ty}[] {ident} = {BYTE_BUFFER}.wrap({BI}[{bi_idx}]).order({BYTE_ORDER}).{to_buffer}array();
+        if capitalized_ty.is_empty() {
+            self.pre.push(format!(
+                r#"{ty}[] {ident} = {BYTE_BUFFER}.wrap({BI}[{bi_idx}]).order({BYTE_ORDER}).array();
                     "#
-        ));
+            ));
+        } else {
+            // A view buffer has no accessible backing array: copy the elements out.
+            self.pre.push(format!(
+                r#"{ty}[] {ident} = new {ty}[{BI}[{bi_idx}].length/{sz}];
+                    {BYTE_BUFFER}.wrap({BI}[{bi_idx}]).order({BYTE_ORDER}).as{capitalized_ty}Buffer().get({ident});
+                    "#
+            ));
+        }
     }
 
     fn visit_input_struct_buffer(&mut self, ident: &idlc_mir::Ident, ty: &idlc_mir::StructInner) {
@@ -226,11 +231,11 @@ impl idlc_codegen::functions::ParameterVisitor for Invoke {
 
         self.pre.push(format!(
             r#"{ty}[][] {ident} = new {ty}[1][];
-                    int {ident}_len = boSizes[{bo_sz_idx}];
+                    int {ident}_len = boSizes[{bo_sz_idx}]/{sz};
                     "#,
         ));
         self.post.push(format!(
-            r#"{BYTE_BUFFER} buffer_{ident} = {BYTE_BUFFER}.allocate({ident}.length*{sz}).order({BYTE_ORDER});
+            r#"{BYTE_BUFFER} buffer_{ident} = {BYTE_BUFFER}.allocate({ident}[0].length*{sz}).order({BYTE_ORDER});
                     buffer_{ident}.{to_buffer}put({ident}[0]);
                     {BO}[{bo_idx}] = buffer_{ident}.array();
                     "#,
